@@ -8,7 +8,7 @@ from vf.cli import run_shards
 LEVEL = 'exploration'
 RULE = ('E2 part: every vector over {SUCCESSFUL,INPROGRESS,NOTSTARTED,STOPPED,'
         'FAILED} for 1-4 integration branches x bypass source {none, admin '
-        'comment, per-author setting, command line} x build key {set, empty}'
+        'comment, per-author setting, command line, bypass granted to another author listed before / after} x build key {set, empty}'
         ' x decoy layout, pushed through the real handle_comments + '
         'check_build_status on a real PullRequestJob; non-trivial = vector '
         'with >=2 branches, not all equal, no bypass, key set (distinct by '
@@ -18,7 +18,10 @@ ASSUMPTIONS = ['git host and git replaced by in-memory fakes in the E2 part; '
                'template rendering stubbed']
 
 STATES = ('SUCCESSFUL', 'INPROGRESS', 'NOTSTARTED', 'STOPPED', 'FAILED')
-SOURCES = ('none', 'comment', 'author', 'cmdline')
+# decoy_*: another author is granted the bypass, the PR's author is listed
+# with an unrelated bypass only (before / after the other one): no bypass
+SOURCES = ('none', 'comment', 'author', 'cmdline', 'decoy_first',
+           'decoy_last')
 
 
 def cases():
@@ -31,7 +34,7 @@ def cases():
 
 
 def oracle(vec, src, key):
-    if src != 'none' or not key:
+    if src in ('comment', 'author', 'cmdline') or not key:
         return 'pass'
     if all(s == 'SUCCESSFUL' for s in vec):
         return 'pass'
@@ -47,6 +50,14 @@ def evaluate(case):
     over = {'build_key': key}
     if src == 'author':
         over['pr_author_options'] = {stubs.AUTHOR: ['bypass_build_status']}
+    elif src == 'decoy_first':
+        over['pr_author_options'] = {
+            stubs.PEER1: ['bypass_build_status'],
+            stubs.AUTHOR: ['bypass_jira_check']}
+    elif src == 'decoy_last':
+        over['pr_author_options'] = {
+            stubs.AUTHOR: ['bypass_jira_check'],
+            stubs.PEER1: ['bypass_build_status']}
     settings = stubs.load_settings(**over)
     comments = []
     if src == 'comment':
@@ -97,8 +108,9 @@ def shard_pure(ctx, shard, acc):
             got = evaluate(case)
         except Exception as e:  # any other exception is a wrong outcome
             got = 'exc:%s' % type(e).__name__
-        nontriv = (len(vec) >= 2 and len(set(vec)) > 1 and src == 'none'
-                   and bool(key))
+        nontriv = (len(vec) >= 2 and len(set(vec)) > 1 and
+                   src in ('none', 'decoy_first', 'decoy_last') and
+                   bool(key))
         acc.case(repr(case), nontriv,
                  sample={'statuses': vec, 'bypass_source': src,
                          'build_key': key, 'decoys': bool(decoy),
